@@ -1207,16 +1207,16 @@ namespace Givaro {
         //! @overload Integer::operator%(Integer);
         giv_all_inlined int64_t     operator % (const int64_t n) const;
         //! @overload Integer::operator%(Integer);
-        giv_all_inlined int32_t     operator % (const uint32_t n) const { return (int32_t)this->operator%((uint64_t)n); }
+        giv_all_inlined int64_t     operator % (const uint32_t n) const { return this->operator%((uint64_t)n); } // |r| < 2^32 does not fit int32_t
         //! @overload Integer::operator%(Integer);
         giv_all_inlined int32_t     operator % (const int32_t n) const { return (int32_t)this->operator%((int64_t)n); }
 
         //! @overload Integer::operator%(Integer);
         giv_all_inlined double   operator % (const double n) const;
         //! @overload Integer::operator%(Integer);
-        int16_t    operator % (const uint16_t n) const
+        int32_t    operator % (const uint16_t n) const // |r| < 2^16 does not fit int16_t
         {
-            return (int16_t) ( this->operator % ( (uint64_t)n ) );
+            return (int32_t) ( this->operator % ( (uint64_t)n ) );
         }
         //! @overload Integer::operator%(Integer);
         template<class XXX>
